@@ -26,6 +26,7 @@ chr_of = z3.Function("py_chr", Z, S)
 ord_of = z3.Function("py_ord", S, Z)
 str_of_int = z3.Function("py_str_of_int", Z, S)
 is_ascii = z3.Function("py_isascii", S, z3.BoolSort())
+is_digit = z3.Function("py_isdigit", S, z3.BoolSort())
 repr_of_str = z3.Function("py_repr_str", S, S)
 strip_ws = z3.Function("py_strip_ws", S, S)
 lower_of = z3.Function("py_lower", S, S)
@@ -610,9 +611,13 @@ def install(ex):
 
     @method("str", "isdigit")
     def s_isdigit(I, s):
+        """str.isdigit: an uninterpreted predicate (non-empty strings only).  Deliberately NOT tied to int(): isdigit
+        accepts characters int() rejects (superscripts, circled digits), so `s.isdigit()` does not make int(s) total"""
         if concrete(s):
             return s.isdigit()
-        _undecided("isdigit")
+        t = is_digit(z3_of(s))
+        I.assume(z3.Implies(t, z3.Length(z3_of(s)) >= 1))
+        return SBool(t)
 
     @method("str", "format")
     def s_format(I, s, *a, **k):
